@@ -20,6 +20,7 @@ import (
 //	ifinit-split   : `if x := e; c { ... }`                                           ->  `{ x := e; if c { ... } }`
 //	switch-to-if   : a tagless switch without fallthrough/break                       ->  an if / else-if chain
 //	ret-local      : `return f(x), nil`                                               ->  `r0_ := f(x); return r0_, nil`
+//	return-swap    : a function body ending `if c { S; return X }; return Y`            ->  `if !(c) { return Y }; S; return X`
 //	cond-local     : `if c { ... }` (not an else-if)                                    ->  `c1_ := c; if c1_ { ... }`
 //	arg-local      : `x := f(a, g(b))` / `f(a, g(b))`                                 ->  `a1_ := g(b); x := f(a, a1_)`
 var astSweeps = map[string]func(f *ast.File) int{
@@ -30,6 +31,7 @@ var astSweeps = map[string]func(f *ast.File) int{
 	"ret-local":    sweepRetLocal,
 	"arg-local":    sweepArgLocal,
 	"cond-local":   sweepCondLocal,
+	"return-swap":  sweepReturnSwap,
 }
 
 func cmdSweepAST(kind string) int {
@@ -416,5 +418,29 @@ func sweepCondLocal(f *ast.File) int {
 		}
 		*list = out
 	})
+	return n
+}
+
+// sweepReturnSwap exchanges the guarded and the final return of a function body.
+func sweepReturnSwap(f *ast.File) int {
+	n := 0
+	for _, d := range f.Decls {
+		fd, ok := d.(*ast.FuncDecl)
+		if !ok || fd.Body == nil || len(fd.Body.List) < 2 {
+			continue
+		}
+		l := fd.Body.List
+		final, isRet := l[len(l)-1].(*ast.ReturnStmt)
+		ifs, isIf := l[len(l)-2].(*ast.IfStmt)
+		if !isRet || !isIf || ifs.Else != nil || ifs.Init != nil || len(ifs.Body.List) == 0 || definesAtTop(ifs.Body.List) {
+			continue
+		}
+		if _, endsRet := ifs.Body.List[len(ifs.Body.List)-1].(*ast.ReturnStmt); !endsRet {
+			continue
+		}
+		guard := &ast.IfStmt{Cond: notExpr(ifs.Cond), Body: &ast.BlockStmt{List: []ast.Stmt{final}}}
+		fd.Body.List = append(append(l[:len(l)-2:len(l)-2], guard), ifs.Body.List...)
+		n++
+	}
 	return n
 }
